@@ -3,7 +3,7 @@
    Ingredients: the geometry of one merge (StaticGeom.v), heap order under lazily stale keys (StaticHeapOrd.v with the
    domination relation Rdom below), time-stamp bookkeeping, and the "most violated first" argument (G3 below). *)
 From Adapt Require Import Num.Qaux Vpsc.VpscSpec Vpsc.VpscModel Vpsc.VpscInv Vpsc.VpscFrame Vpsc.VpscWalks Vpsc.VpscForest
-  Vpsc.StaticModel Vpsc.StaticFrame Vpsc.StaticHeap Vpsc.StaticInv Vpsc.StaticHeapOrd Vpsc.StaticGeom.
+  Vpsc.StaticModel Vpsc.StaticFrame Vpsc.StaticHeap Vpsc.StaticInv Vpsc.StaticInvB Vpsc.StaticHeapOrd Vpsc.StaticGeom.
 From Coq Require Import Permutation.
 Local Open Scope Q_scope.
 
@@ -1015,7 +1015,8 @@ Section MLstep.
 
   Lemma ml_body_MLI s r c0 s' r' c' :
     MLI done v Yb cs n s r -> root_ok s r (Some c0) -> slack_val (base s) c0 < 0 ->
-    ml_body s r c0 = Ok (s', r', c') -> MLI done v Yb cs n s' r' /\ root_ok s' r' c'.
+    ml_body s r c0 = Ok (s', r', c') ->
+    MLI done v Yb cs n s' r' /\ root_ok s' r' c' /\ (nvars s r < nvars s' r')%nat.
   Proof.
     intros I [h0 [Hh0 [Hmin Hkey]]] Hneg H.
     pose proof (i_SI _ _ _ _ _ _ _ I) as SIs. pose proof SIs as [BK [AI HO]].
@@ -1204,8 +1205,25 @@ Section MLstep.
       destruct (Nat.eq_dec (blk_of b w) r) as [X|X]; [exfalso; apply Nt; rewrite <- Ew; apply (NB w Hw); left; exact X|].
       destruct (Nat.eq_dec (blk_of b w) l) as [X2|X2]; [exfalso; apply Nt; rewrite <- Ew; apply (NB w Hw); right; exact X2|].
       destruct (proj2 (NB w Hw) X X2) as [E _]. split; [exists w; split; [exact Hw | congruence]|]. split; congruence. }
-    split.
+    split; [|split].
     2:{ exists h9. split; [exact N1|]. split; [exact N3 | exact N6]. }
+    2:{ (* the block grows: fuel bound of mergeLeft's loop *)
+      unfold nvars. rewrite Fb. fold b.
+      destruct SI' as [BK' _]. rewrite Fb in BK'.
+      assert (Hvb : (v < length (svars b))%nat) by (rewrite Gn; exact Hv).
+      assert (Hvb' : (v < length (svars b'))%nat) by (rewrite Lb'; exact Hv).
+      assert (Evt : blk_of b' v = t) by (apply (NB v Hvb); left; exact Ev).
+      pose proof (bk_nodup _ BK v Hvb) as NDr. rewrite Ev in NDr.
+      assert (Hclb : (cl (Kc cs c0) < length (svars b))%nat) by (rewrite Gn; exact Hcl0).
+      assert (NDc : NoDup (cl (Kc cs c0) :: bvars (block_of b r))).
+      { constructor; [|exact NDr]. intros X. rewrite <- Ev in X. apply (bk_mem _ BK v _ Hvb) in X. destruct X as [_ X].
+        rewrite Ev in X. apply Nl0. exact X. }
+      assert (Inc : incl (cl (Kc cs c0) :: bvars (block_of b r)) (bvars (block_of b' t))).
+      { intros w [<-|Hw]; rewrite <- Evt; apply (bk_mem _ BK' v _ Hvb'); rewrite Lb', Evt.
+        - split; [exact Hcl0|]. apply (NB _ Hclb). right. reflexivity.
+        - rewrite <- Ev in Hw. apply (bk_mem _ BK v _ Hvb) in Hw. destruct Hw as [Hw1 Hw2]. rewrite Gn in Hw1.
+          split; [exact Hw1|]. apply (NB w); [rewrite Gn; exact Hw1|]. left. rewrite Hw2. exact Ev. }
+      pose proof (NoDup_incl_length NDc Inc) as X. cbn [length] in X. lia. }
     assert (Blk' : forall u, (u < n)%nat -> blk_of b' u = t \/ (blk_of b' u = blk_of b u /\ blk_of b u <> r /\ blk_of b u <> l /\ blk_of b' u <> t)).
     { intros u Hu. rewrite <- Gn in Hu.
       destruct (Nat.eq_dec (blk_of b u) r) as [X|X]; [left; apply (NB u Hu); left; exact X|].
@@ -1321,7 +1339,7 @@ Section MLstep.
     destruct (Qltb (sslack s0 c0) 0) eqn:E.
     - apply bind_ok in H. destruct H as [[[s1 r1] c1] [H1 H2]].
       apply Qltb_spec in E. unfold sslack in E.
-      destruct (ml_body_MLI s0 r c0 s1 r1 c1 I0 RO0 E H1) as [I1 RO1].
+      destruct (ml_body_MLI s0 r c0 s1 r1 c1 I0 RO0 E H1) as [I1 [RO1 _]].
       exact (IH _ _ _ _ I1 RO1 H2).
     - inversion H. subst s'. exists r, (Some c0). split; [exact I0|]. split; [exact RO0|].
       intros c1 E1. inversion E1. subst c1. apply Qltb_false in E. exact E.
@@ -1782,4 +1800,497 @@ Proof.
   pose proof (visit_fold_PI cs (length vs) order [] (static_init vs cs) s1 TP R (static_init_PI vs cs WV W) H) as P.
   cbn [app] in P. intros c Hc. rewrite (p_cs _ _ _ _ P) in Hc. apply (p_sat _ _ _ _ P c Hc).
   apply -> in_rev. destruct TP as [_ [CV _]]. exact (CV c Hc).
+Qed.
+
+(* ------------------------------------------------------------------ the merge pass never throws *)
+Definition nothrow {A} (r : res A) : Prop := forall c, r <> ThrowUnsat c.
+Lemma nothrow_bind {A B} (r : res A) (f : A -> res B) : nothrow r -> (forall a, nothrow (f a)) -> nothrow (bind r f).
+Proof. intros H1 H2 c. destruct r as [a|c0|]; cbn [bind]; [apply H2 | intros E; exact (H1 c0 eq_refl) | discriminate]. Qed.
+Lemma nothrow_ok {A} (a : A) : nothrow (Ok a). Proof. intros c. discriminate. Qed.
+Lemma nothrow_oof {A} : nothrow (@OutOfFuel A). Proof. intros c. discriminate. Qed.
+Lemma nothrow_fold {X A} (g : X -> A -> res X) (l : list A) :
+  (forall x a, nothrow (g x a)) -> forall acc, nothrow acc -> nothrow (fold_left (fun acc a => bind acc (fun x => g x a)) l acc).
+Proof.
+  intros Hg. induction l as [|a t IH]; intros acc Ha; cbn [fold_left]; [exact Ha|].
+  apply IH. apply nothrow_bind; [exact Ha | intros x; apply Hg].
+Qed.
+
+Lemma fmi_loop_nothrow : forall fuel s h ood, nothrow (fmi_loop fuel s h ood).
+Proof.
+  induction fuel as [|f IH]; intros s h ood; cbn [fmi_loop]; [apply nothrow_oof|].
+  destruct h as [[v kids]|]; [|apply nothrow_ok].
+  destruct (Nat.eqb _ _); [destruct (s_delete_min _ _); apply IH|].
+  destruct (Nat.ltb _ _); [destruct (s_delete_min _ _); apply IH | apply nothrow_ok].
+Qed.
+Lemma find_min_in_nothrow s b : nothrow (find_min_in s b).
+Proof.
+  unfold find_min_in. destruct (bin_of s b); [|apply nothrow_oof].
+  apply nothrow_bind; [apply fmi_loop_nothrow|]. intros [[s1 h1] ood]. destruct (fold_left reinsert ood (s1, h1)). apply nothrow_ok.
+Qed.
+Lemma delete_min_nothrow inn s b : nothrow (delete_min inn s b).
+Proof. unfold delete_min. destruct (heap_of s inn b); [|apply nothrow_oof]. destruct (s_delete_min _ _). apply nothrow_ok. Qed.
+Lemma merge_heaps_in_nothrow s r l : nothrow (merge_heaps true s r l).
+Proof.
+  unfold merge_heaps. apply nothrow_bind; [apply find_min_in_nothrow|]. intros p1.
+  apply nothrow_bind; [apply find_min_in_nothrow|]. intros p2.
+  destruct (heap_of _ _ _); [|apply nothrow_oof]. destruct (heap_of _ _ _); [|apply nothrow_oof].
+  destruct (s_merge _ _ _). apply nothrow_ok.
+Qed.
+Lemma ml_body_nothrow s r c : nothrow (ml_body s r c).
+Proof.
+  unfold ml_body. apply nothrow_bind; [apply delete_min_nothrow|]. intros s1.
+  apply nothrow_bind; [apply merge_heaps_in_nothrow|]. intros s5.
+  apply nothrow_bind; [apply find_min_in_nothrow|]. intros p. apply nothrow_ok.
+Qed.
+Lemma ml_loop_nothrow : forall fuel s r c, nothrow (ml_loop fuel s r c).
+Proof.
+  induction fuel as [|f IH]; intros s r c; cbn [ml_loop]; [apply nothrow_oof|].
+  destruct c as [c0|]; [|apply nothrow_ok].
+  destruct (Qltb _ _); [|apply nothrow_ok].
+  apply nothrow_bind; [apply ml_body_nothrow|]. intros [[s' r'] c']. apply IH.
+Qed.
+Lemma merge_left_nothrow s r : nothrow (merge_left s r).
+Proof. unfold merge_left. apply nothrow_bind; [apply find_min_in_nothrow|]. intros p. apply ml_loop_nothrow. Qed.
+Lemma dfs_visit_nothrow : forall fuel s v acc, nothrow (dfs_visit fuel s v acc).
+Proof.
+  induction fuel as [|f IH]; intros s v acc; cbn [dfs_visit]; [apply nothrow_oof|].
+  apply nothrow_bind; [|intros a; apply nothrow_ok].
+  apply (nothrow_fold (fun (a' : list bool * list nat) (c : nat) =>
+           let w := cr (con_of s c) in if nth w (fst a') false then Ok a' else dfs_visit f s w a')); [|apply nothrow_ok].
+  intros x c. cbv zeta. destruct (nth _ _ _); [apply nothrow_ok | apply IH].
+Qed.
+Lemma total_order_nothrow s : nothrow (total_order s).
+Proof.
+  unfold total_order. apply nothrow_bind; [|intros a; apply nothrow_ok].
+  apply (nothrow_fold (fun (a' : list bool * list nat) (v : nat) =>
+           match ins_of s v with [] => dfs_visit (S (length (svars s))) s v a' | _ => Ok a' end)); [|apply nothrow_ok].
+  intros x v. destruct (ins_of s v); [apply dfs_visit_nothrow | apply nothrow_ok].
+Qed.
+Lemma merge_pass_nothrow s : nothrow (merge_pass s).
+Proof.
+  unfold merge_pass. apply nothrow_bind; [apply total_order_nothrow|]. intros order.
+  change (fold_left sat_visit order (Ok s)) with
+    (fold_left (fun acc v => bind acc (fun s => let b := blk_of (base s) v in
+                                                if dead (block_of (base s) b) then Ok s else merge_left s b)) order (Ok s)).
+  apply (nothrow_fold (fun (s : sst) (v : nat) => let b := blk_of (base s) v in
+                          if dead (block_of (base s) b) then Ok s else merge_left s b)); [|apply nothrow_ok].
+  intros x v. cbv zeta. destruct (dead _); [apply nothrow_ok | apply merge_left_nothrow].
+Qed.
+
+(* ------------------------------------------------------------------ the DAG hypothesis as a boolean *)
+Fixpoint nodupb (l : list nat) : bool :=
+  match l with [] => true | a :: t => negb (existsb (Nat.eqb a) t) && nodupb t end.
+Lemma nodupb_spec l : nodupb l = true -> NoDup l.
+Proof.
+  induction l as [|a t IH]; intros H; [constructor|]. cbn [nodupb] in H. apply andb_true_iff in H. destruct H as [H1 H2].
+  constructor; [|exact (IH H2)]. intros X. apply negb_true_iff in H1.
+  assert (E : existsb (Nat.eqb a) t = true) by (apply existsb_exists; exists a; split; [exact X | apply Nat.eqb_refl]). congruence.
+Qed.
+(* StaticInvB.is_dag (the DFS order lists every variable and every constraint goes forward in it) plus: no variable
+   is listed twice *)
+Definition dag_orderb (b : st) : bool :=
+  is_dag b && match total_order b with Ok order => nodupb order | _ => false end.
+
+Lemma index_of_app_lt x : forall l1 l2, (index_of x (l1 ++ l2) < length l1)%nat -> In x l1.
+Proof.
+  induction l1 as [|a t IH]; intros l2 H; [cbn in H; lia|]. cbn [app index_of length] in H.
+  destruct (Nat.eqb a x) eqn:E; [left; apply Nat.eqb_eq; exact E|]. right. apply (IH l2). lia.
+Qed.
+Lemma index_of_in_lt x : forall l1 l2, In x l1 -> (index_of x (l1 ++ l2) < length l1)%nat.
+Proof.
+  induction l1 as [|a t IH]; intros l2 H; [destruct H|]. cbn [app index_of length].
+  destruct (Nat.eqb a x) eqn:E; [lia|]. destruct H as [->|H]; [rewrite Nat.eqb_refl in E; discriminate|].
+  specialize (IH l2 H). lia.
+Qed.
+Lemma index_of_mid_le x : forall l1 l2, (index_of x (l1 ++ x :: l2) <= length l1)%nat.
+Proof.
+  induction l1 as [|a t IH]; intros l2; cbn [app index_of length]; [rewrite Nat.eqb_refl; lia|].
+  destruct (Nat.eqb a x); [lia|]. specialize (IH l2). lia.
+Qed.
+
+Lemma dag_orderb_topo vs cs :
+  wf_cons vs cs -> dag_orderb (init vs cs) = true ->
+  exists order, total_order (init vs cs) = Ok order /\ topo_order cs order.
+Proof.
+  intros W H. unfold dag_orderb, is_dag in H. destruct (init_problem vs cs) as [Iv Ic]. rewrite Iv, Ic in H.
+  destruct (total_order (init vs cs)) as [order| |] eqn:TO; try discriminate.
+  apply andb_true_iff in H. destruct H as [H ND]. apply andb_true_iff in H. destruct H as [HL HF].
+  apply Nat.eqb_eq in HL. apply nodupb_spec in ND. rewrite forallb_forall in HF.
+  exists order. split; [reflexivity|].
+  assert (R : forall u, In u order -> (u < length vs)%nat).
+  { pose proof (total_order_range (init vs cs) order) as X. rewrite Iv, Ic in X. specialize (X W TO).
+    rewrite Forall_forall in X. exact X. }
+  assert (All : forall u, (u < length vs)%nat -> In u order).
+  { intros u Hu. apply (NoDup_length_incl ND (l' := seq 0 (length vs))).
+    - rewrite seq_length. lia.
+    - intros w Hw. apply in_seq. specialize (R w Hw). lia.
+    - apply in_seq. lia. }
+  assert (KIn : forall c, (c < length cs)%nat -> In (Kc cs c) cs) by (intros c Hc; unfold Kc; apply nth_In; exact Hc).
+  split; [exact ND|]. split.
+  - intros c Hc. apply All. exact (proj2 (W _ (KIn c Hc))).
+  - intros c pre v post Hc E Hr. specialize (HF _ (KIn c Hc)). apply Nat.ltb_lt in HF. subst order.
+    apply (index_of_app_lt _ pre (v :: post)).
+    destruct Hr as [Hr|Hr].
+    + pose proof (index_of_in_lt _ pre (v :: post) Hr). lia.
+    + rewrite Hr in HF. pose proof (index_of_mid_le v pre post). lia.
+Qed.
+
+(* ------------------------------------------------------------------ static_no_throw_on_dag (modulo fuel) *)
+Theorem static_no_throw_on_dag_modulo_fuel vs cs :
+  wf_vars vs -> wf_cons vs cs -> dag_orderb (init vs cs) = true ->
+  static_satisfy (static_init vs cs) <> OutOfFuel ->
+  exists s', static_satisfy (static_init vs cs) = Ok s' /\
+             forall c, (c < length cs)%nat -> 0 <= slack_val (base s') c.
+Proof.
+  intros WV W D NF.
+  destruct (dag_orderb_topo vs cs W D) as [order [TO TP]].
+  destruct (merge_pass (static_init vs cs)) as [s1|c|] eqn:E.
+  - pose proof (merge_pass_all_sat vs cs order s1 WV W TO TP E) as A.
+    unfold static_satisfy. rewrite E. cbn [bind].
+    set (s2 := note_scan (set_base s1 (cleanup (base s1)))).
+    assert (E2 : base s2 = cleanup (base s1)) by (unfold s2; rewrite note_scan_base; reflexivity).
+    assert (K : keepP (base (static_init vs cs)) (base s1)) by (apply merge_pass_keepP; exact E).
+    destruct K as [_ Kc']. cbn [static_init base] in Kc'. destruct (init_problem vs cs) as [_ Ic]. rewrite Ic in Kc'.
+    exists s2. split.
+    + unfold sfinal_scan. destruct (find _ _) as [c|] eqn:F; [|reflexivity].
+      apply find_some in F. destruct F as [Hin Hlt]. apply in_seq in Hin. unfold sslack in Hlt. rewrite E2 in Hin, Hlt.
+      apply Qltb_spec in Hlt. change (slack_val (cleanup (base s1)) c) with (slack_val (base s1) c) in Hlt.
+      change (length (scons (cleanup (base s1)))) with (length (scons (base s1))) in Hin.
+      pose proof (A c (proj2 Hin)) as P. unfold ZERO_UPPERBOUND in Hlt. lra.
+    + intros c Hc. rewrite E2. change (slack_val (cleanup (base s1)) c) with (slack_val (base s1) c). apply A. rewrite Kc'. exact Hc.
+  - exfalso. exact (merge_pass_nothrow _ c E).
+  - exfalso. apply NF. unfold static_satisfy. rewrite E. reflexivity.
+Qed.
+
+(* ------------------------------------------------------------------ fuel: the heap loops terminate, heaps are never null *)
+Lemma s_delete_min_size s h : heap_size (snd (s_delete_min s h)) = pred (heap_size h).
+Proof.
+  unfold s_delete_min. pose proof (h_delete_min_perm (cmp_less s) (nr_of s) h) as P.
+  destruct (h_delete_min (cmp_less s) (nr_of s) h) as [h' t]. cbn [fst snd] in *.
+  rewrite !heap_size_elems. rewrite (Permutation_length P). destruct (heap_elems h); reflexivity.
+Qed.
+Lemma s_delete_min_bin s h : bin (fst (s_delete_min s h)) = bin s.
+Proof. exact (proj1 (heaps_eq_s_delete_min s h)). Qed.
+
+Lemma fmi_loop_total : forall fuel s h ood, (heap_size h < fuel)%nat -> exists r, fmi_loop fuel s h ood = Ok r.
+Proof.
+  induction fuel as [|f IH]; intros s h ood Hf; [lia|]. cbn [fmi_loop].
+  destruct h as [[v kids]|]; [|eexists; reflexivity].
+  set (h := Some (PH v kids)) in *.
+  assert (Hs : (heap_size (snd (s_delete_min s h)) < f)%nat).
+  { rewrite s_delete_min_size. unfold h in *. cbn [heap_size] in *. destruct (ph_size (PH v kids)) eqn:E; [cbn in E; lia | cbn; lia]. }
+  destruct (Nat.eqb _ _).
+  - destruct (s_delete_min s h) as [s1 h1]. apply IH. exact Hs.
+  - destruct (Nat.ltb _ _); [destruct (s_delete_min s h) as [s1 h1]; apply IH; exact Hs | eexists; reflexivity].
+Qed.
+Lemma find_min_in_total s b h : bin_of s b = Some h -> exists s' c, find_min_in s b = Ok (s', c).
+Proof.
+  intros Hb. unfold find_min_in. rewrite Hb.
+  destruct (fmi_loop_total (S (heap_size h)) s h [] (Nat.lt_succ_diag_r _)) as [[[s1 h1] ood] E]. rewrite E. cbn [bind].
+  destruct (fold_left reinsert ood (s1, h1)) as [s2 h2]. eexists _, _. reflexivity.
+Qed.
+Lemma delete_min_total s b h : bin_of s b = Some h -> exists s', delete_min true s b = Ok s'.
+Proof. intros Hb. unfold delete_min. cbn [heap_of]. rewrite Hb. destruct (s_delete_min s h). eexists. reflexivity. Qed.
+
+Lemma merge_heaps_total s r l hr hl :
+  r <> l -> bin_of s r = Some hr -> bin_of s l = Some hl ->
+  exists s' h', merge_heaps true s r l = Ok s' /\ bin_of s' r = Some h'.
+Proof.
+  intros Hne Hr Hl. unfold merge_heaps.
+  destruct (find_min_in_total s r hr Hr) as [s1 [c1 E1]]. rewrite E1. cbn [bind fst].
+  destruct (find_min_in_spec _ _ _ _ E1) as [_ [O1 [[hr0 [hr1 [R1 [R2 _]]]] _]]].
+  assert (Hl1 : bin_of s1 l = Some hl).
+  { destruct (O1 true l) as [[_ X]|X]; [congruence|]. cbn [heap_of] in X. congruence. }
+  destruct (find_min_in_total s1 l hl Hl1) as [s2 [c2 E2]]. rewrite E2. cbn [bind fst].
+  destruct (find_min_in_spec _ _ _ _ E2) as [_ [O2 [[hl0 [hl2 [L1 [L2 _]]]] _]]].
+  assert (Hr2 : bin_of s2 r = Some hr1).
+  { destruct (O2 true r) as [[_ X]|X]; [congruence|]. cbn [heap_of] in X. congruence. }
+  cbn [heap_of]. rewrite Hr2, L2.
+  destruct (s_merge s2 hr1 hl2) as [s3 h] eqn:E. eexists _, h. split; [reflexivity|].
+  assert (Q3 : heaps_eq s2 s3) by (pose proof (heaps_eq_s_merge s2 hr1 hl2) as Q; rewrite E in Q; exact Q).
+  destruct (heap_of_set_heap (set_heap s3 true r (Some h)) true l (Some None) true r) as [X|[_ [X _]]]; [|congruence].
+  change (heap_of (set_heap (set_heap s3 true r (Some h)) true l (Some None)) true r = Some h). rewrite X.
+  apply (heap_of_set_heap_same _ _ _ _ hr1). rewrite (heaps_eq_heap_of s2 s3 true r Q3). exact Hr2.
+Qed.
+
+Lemma ml_body_total s r c0 h0 hl0 :
+  bin_of s r = Some h0 -> lblk s c0 <> r -> bin_of s (lblk s c0) = Some hl0 ->
+  exists res, ml_body s r c0 = Ok res.
+Proof.
+  intros Hr Hne Hl. unfold ml_body.
+  destruct (delete_min_total s r h0 Hr) as [s1 E1]. rewrite E1. cbn [bind].
+  destruct (delete_min_in_spec _ _ _ E1) as [B1 [O1 [hd [hd' [D1 [D2 _]]]]]].
+  assert (El : lblk s1 c0 = lblk s c0) by (unfold lblk; rewrite B1; reflexivity). rewrite El.
+  set (l := lblk s c0) in *.
+  assert (Hl1 : bin_of s1 l = Some hl0).
+  { destruct (O1 true l) as [[_ X]|X]; [congruence|]. cbn [heap_of] in X. congruence. }
+  rewrite Hl1.
+  set (sw := Nat.ltb (nvars s1 r) (nvars s1 l)).
+  set (t := if sw then l else r). set (a := if sw then r else l).
+  assert (Hta : t <> a) by (unfold t, a; destruct sw; congruence).
+  match goal with |- context [merge_heaps true ?x t a] => set (s4 := x) end.
+  assert (Bin4 : forall B, bin_of s4 B = bin_of s1 B) by reflexivity.
+  assert (exists ht, bin_of s4 t = Some ht) as [ht Hht] by (unfold t; rewrite Bin4; destruct sw; eauto).
+  assert (exists ha, bin_of s4 a = Some ha) as [ha Hha] by (unfold a; rewrite Bin4; destruct sw; eauto).
+  destruct (merge_heaps_total s4 t a ht ha Hta Hht Hha) as [s5 [h5 [E5 H5]]]. rewrite E5. cbn [bind].
+  match goal with |- context [find_min_in ?x t] => set (s6 := x) end.
+  assert (H6 : bin_of s6 t = Some h5) by exact H5.
+  destruct (find_min_in_total s6 t h5 H6) as [s9 [c9 E9]]. rewrite E9. cbn [bind]. eexists. reflexivity.
+Qed.
+
+(* ------------------------------------------------------------------ fuel: the lists of heaps / blocks keep their lengths *)
+Lemma set_heap_lbin s inn b h : length (bin (set_heap s inn b h)) = length (bin s).
+Proof. destruct inn; cbn [set_heap bin set_bin set_bout]; [apply upd_nth_length | reflexivity]. Qed.
+Lemma find_min_in_lbin s b s' c : find_min_in s b = Ok (s', c) -> length (bin s') = length (bin s).
+Proof.
+  unfold find_min_in. destruct (bin_of s b) as [h|]; [|discriminate]. intros H.
+  apply bind_ok in H. destruct H as [[[s1 h1] ood] [H1 H2]].
+  destruct (fmi_loop_spec _ _ _ _ _ _ _ H1) as [_ [[Q1 _] _]].
+  destruct (fold_left reinsert ood (s1, h1)) as [s2 h2] eqn:E2.
+  destruct (reinsert_fold_spec _ _ _ _ _ E2) as [_ [[Q2 _] _]].
+  assert (Es : s' = set_heap s2 true b (Some h2)) by congruence. subst s'. rewrite set_heap_lbin. congruence.
+Qed.
+Lemma delete_min_lbin s b s' : delete_min true s b = Ok s' -> length (bin s') = length (bin s).
+Proof.
+  unfold delete_min. cbn [heap_of]. destruct (bin_of s b) as [h|]; [|discriminate].
+  destruct (s_delete_min s h) as [s1 h1] eqn:E. intros H.
+  assert (Es : s' = set_heap s1 true b (Some h1)) by congruence. subst s'. rewrite set_heap_lbin.
+  pose proof (s_delete_min_bin s h) as X. rewrite E in X. cbn [fst] in X. congruence.
+Qed.
+Lemma merge_heaps_lbin s r l s' : merge_heaps true s r l = Ok s' -> length (bin s') = length (bin s).
+Proof.
+  unfold merge_heaps. intros H.
+  apply bind_ok in H. destruct H as [[s1 c1] [H1 H]].
+  apply bind_ok in H. destruct H as [[s2 c2] [H2 H]]. cbn [fst] in *.
+  apply find_min_in_lbin in H1. apply find_min_in_lbin in H2.
+  destruct (heap_of s2 true r) as [hr|]; [|discriminate]. destruct (heap_of s2 true l) as [hl|]; [|discriminate].
+  destruct (s_merge s2 hr hl) as [s3 h] eqn:E.
+  assert (Es : s' = set_heap (set_heap s3 true r (Some h)) true l (Some None)) by congruence. subst s'.
+  rewrite !set_heap_lbin. pose proof (proj1 (heaps_eq_s_merge s2 hr hl)) as X. rewrite E in X. cbn [fst] in X. congruence.
+Qed.
+Lemma set_up_heap_lbin s b : length (bin (set_up_heap true s b)) = length (bin s).
+Proof.
+  unfold set_up_heap.
+  match goal with |- context [fold_left ?f ?l ?a] => assert (E : bin (fst (fold_left f l a)) = bin s) end.
+  { apply (fold_left_inv _ (fun acc => bin (fst acc) = bin s)); [|reflexivity].
+    intros acc v _ Hacc.
+    apply (fold_left_inv _ (fun acc => bin (fst acc) = bin s)); [|exact Hacc].
+    intros [s1 h1] c _ H'. cbn [fst] in *. unfold heap_add.
+    set (s2 := set_ctime_of s1 c (ctr s1)).
+    destruct (negb _); [|exact H'].
+    pose proof (proj1 (heaps_eq_s_insert s2 h1 c)) as X. rewrite X. exact H'. }
+  match goal with |- context [fold_left ?f ?l ?a] => destruct (fold_left f l a) as [s' h] end.
+  cbn [fst] in E. rewrite set_heap_lbin. congruence.
+Qed.
+Lemma mfold_lblocks t d : forall vars s1, length (blocks (fold_left (mstep t d) vars s1)) = length (blocks s1).
+Proof.
+  induction vars as [|w vars IH]; intros s1; cbn [fold_left]; [reflexivity|].
+  rewrite IH. unfold mstep, add_variable, set_vblk, set_block, set_blocks. cbn [blocks]. apply upd_nth_length.
+Qed.
+Lemma merge_into_lblocks b t a c d : length (blocks (merge_into b t a c d)) = length (blocks b).
+Proof.
+  rewrite merge_into_unfold. unfold kill_block, set_block, set_blocks. cbn [blocks]. rewrite upd_nth_length.
+  rewrite mfold_lblocks. reflexivity.
+Qed.
+Lemma ml_body_lens s r c s' r' c' :
+  ml_body s r c = Ok (s', r', c') ->
+  length (bin s') = length (bin s) /\ length (blocks (base s')) = length (blocks (base s)).
+Proof.
+  intros H. split.
+  - unfold ml_body in H. apply bind_ok in H. destruct H as [s1 [H1 H]].
+    apply delete_min_lbin in H1.
+    apply bind_ok in H. destruct H as [s5 [H5 H]]. apply merge_heaps_lbin in H5.
+    apply bind_ok in H. destruct H as [[s9 c9] [H9 H]]. apply find_min_in_lbin in H9.
+    inversion H. subst. cbn [fst]. rewrite H9. cbn [bin set_btime]. rewrite H5. cbn [bin set_base set_ctr].
+    destruct (bin_of s1 (lblk s1 c)); [exact H1 | rewrite set_up_heap_lbin; exact H1].
+  - destruct (ml_body_base _ _ _ _ _ _ H) as [t [b [d [E _]]]]. rewrite E. apply merge_into_lblocks.
+Qed.
+Lemma ml_loop_lens : forall fuel s r c s', ml_loop fuel s r c = Ok s' ->
+  length (bin s') = length (bin s) /\ length (blocks (base s')) = length (blocks (base s)).
+Proof.
+  induction fuel as [|f IH]; intros s r c s' H; [discriminate|].
+  cbn [ml_loop] in H. destruct c as [c0|]; [|inversion H; auto].
+  destruct (snote_slack_fields TIE_EPS s c0 0) as [F1 [_ [_ [F4 _]]]].
+  set (s0 := snote_slack TIE_EPS s c0 0) in *.
+  destruct (Qltb (sslack s0 c0) 0).
+  - apply bind_ok in H. destruct H as [[[s1 r1] c1] [H1 H2]].
+    destruct (ml_body_lens _ _ _ _ _ _ H1) as [A B]. destruct (IH _ _ _ _ H2) as [C D].
+    rewrite C, A, D, B, F4, F1. auto.
+  - inversion H. subst s'. rewrite F4, F1. auto.
+Qed.
+Lemma merge_left_lens s r s' : merge_left s r = Ok s' ->
+  length (bin s') = length (bin s) /\ length (blocks (base s')) = length (blocks (base s)).
+Proof.
+  unfold merge_left. intros H. apply bind_ok in H. destruct H as [[s4 c4] [H4 H]]. cbn [fst snd] in H.
+  pose proof (find_min_in_lbin _ _ _ _ H4) as A. pose proof (find_min_in_base _ _ _ _ H4) as B.
+  rewrite set_up_heap_lbin in A. rewrite base_set_up_heap in B. cbn [bin base set_btime set_ctr] in A, B.
+  destruct (ml_loop_lens _ _ _ _ _ H) as [C D]. rewrite C, D, A, B. auto.
+Qed.
+
+(* ------------------------------------------------------------------ fuel: mergeLeft's loop *)
+Section LoopTotal.
+  Variables (done : list nat) (v : nat) (Yb : nat -> Q) (cs : list con) (n : nat).
+  Hypothesis topo : forall c, (c < length cs)%nat -> proc done v (cr (Kc cs c)) -> In (cl (Kc cs c)) done.
+  Hypothesis G0 : forall c, (c < length cs)%nat -> In (cr (Kc cs c)) done ->
+                    0 <= Yb (cr (Kc cs c)) - gap (Kc cs c) - Yb (cl (Kc cs c)).
+  Hypothesis done_lt : forall u, In u done -> (u < n)%nat.
+
+  Lemma MLI_root_facts s r c0 :
+    MLI done v Yb cs n s r -> root_ok s r (Some c0) ->
+    exists h0 hl0, bin_of s r = Some h0 /\ lblk s c0 <> r /\ bin_of s (lblk s c0) = Some hl0.
+  Proof.
+    intros I [h0 [Hh0 [Hmin Hkey]]].
+    pose proof (i_SI _ _ _ _ _ _ _ I) as [BK [AI HO]]. pose proof (i_geo _ _ _ _ _ _ _ I) as G.
+    pose proof (MLI_inh_r done v Yb cs n s r I) as Inr.
+    destruct (g_v _ _ _ _ _ _ _ G) as [Hv Ev].
+    destruct (HO r h0 c0 Hh0 (heap_min_in _ _ Hmin) Inr) as [Hc0 Hrb].
+    destruct (skey_some_inv s c0 (Hkey c0 eq_refl)) as [Ext0 _].
+    rewrite (g_cs _ _ _ _ _ _ _ G) in Hc0.
+    destruct (MLI_ends done v Yb cs n s r c0 I Hc0) as [Hcl0 Hcr0].
+    assert (Er0 : blk_of (base s) (cr (Kc cs c0)) = r).
+    { unfold rblk in Hrb. rewrite (MLI_con done v Yb cs n s r c0 I) in Hrb. exact Hrb. }
+    assert (Pcr0 : proc done v (cr (Kc cs c0))).
+    { apply (geo_block_proc done v Yb cs n (base s) r v _ G); [exact Hv | exact Hcr0 | right; reflexivity | congruence]. }
+    pose proof (topo c0 Hc0 Pcr0) as Dcl0.
+    pose proof (i_HN _ _ _ _ _ _ _ I _ Hcl0 (or_introl Dcl0)) as HN.
+    assert (El : lblk s c0 = blk_of (base s) (cl (Kc cs c0))) by (unfold lblk; rewrite (MLI_con done v Yb cs n s r c0 I); reflexivity).
+    rewrite <- El in HN. destruct (bin_of s (lblk s c0)) as [hl0|] eqn:E; [|congruence].
+    exists h0, hl0. split; [exact Hh0|]. split; [rewrite <- Hrb; exact Ext0 | reflexivity].
+  Qed.
+
+  Lemma MLI_nvars_le s r : MLI done v Yb cs n s r -> (nvars s r <= n)%nat.
+  Proof.
+    intros I. pose proof (i_SI _ _ _ _ _ _ _ I) as [BK _]. pose proof (i_geo _ _ _ _ _ _ _ I) as G.
+    destruct (g_v _ _ _ _ _ _ _ G) as [Hv Ev]. pose proof (g_n _ _ _ _ _ _ _ G) as Gn.
+    assert (Hvb : (v < length (svars (base s)))%nat) by (rewrite Gn; exact Hv).
+    unfold nvars. rewrite <- Ev.
+    pose proof (NoDup_incl_length (bk_nodup _ BK v Hvb) (l' := seq 0 n)) as X. rewrite seq_length in X. apply X.
+    intros w Hw. apply (bk_mem _ BK v w Hvb) in Hw. apply in_seq. rewrite Gn in Hw. lia.
+  Qed.
+
+  Lemma ml_loop_total : forall fuel s r c,
+    MLI done v Yb cs n s r -> root_ok s r c -> (n + 2 <= fuel + nvars s r)%nat ->
+    exists s', ml_loop fuel s r c = Ok s'.
+  Proof.
+    induction fuel as [|f IH]; intros s r c I RO Hf.
+    - pose proof (MLI_nvars_le s r I). lia.
+    - cbn [ml_loop]. destruct c as [c0|]; [|eexists; reflexivity].
+      destruct (snote_slack_fields TIE_EPS s c0 0) as [F1 [F2 [F3 [F4 F5]]]].
+      set (s0 := snote_slack TIE_EPS s c0 0) in *.
+      assert (I0 : MLI done v Yb cs n s0 r) by (apply (MLI_frame done v Yb cs n s); assumption).
+      assert (RO0 : root_ok s0 r (Some c0)) by (apply (ceqv_root_ok s); [repeat split; assumption | exact F4 | exact RO]).
+      destruct (Qltb (sslack s0 c0) 0) eqn:E; [|eexists; reflexivity].
+      destruct (MLI_root_facts s0 r c0 I0 RO0) as [h0 [hl0 [A [B C]]]].
+      destruct (ml_body_total s0 r c0 h0 hl0 A B C) as [[[s1 r1] c1] E1]. rewrite E1. cbn [bind].
+      apply Qltb_spec in E. unfold sslack in E.
+      destruct (ml_body_MLI done v Yb cs n topo G0 done_lt s0 r c0 s1 r1 c1 I0 RO0 E E1) as [I1 [RO1 M]].
+      apply (IH s1 r1 c1 I1 RO1).
+      assert (E0 : nvars s0 r = nvars s r) by (unfold nvars; rewrite F1; reflexivity). lia.
+  Qed.
+End LoopTotal.
+
+(* ------------------------------------------------------------------ fuel: mergeLeft and the merge pass return *)
+Definition LB (s : sst) : Prop := length (bin s) = length (blocks (base s)).
+
+Lemma merge_left_total cs n done v s :
+  (forall c, (c < length cs)%nat -> proc done v (cr (Kc cs c)) -> In (cl (Kc cs c)) done) ->
+  ~ In v done -> (forall u, In u done -> (u < n)%nat) -> (v < n)%nat ->
+  PI cs n done s -> LB s -> exists s', merge_left s (blk_of (base s) v) = Ok s'.
+Proof.
+  intros topo vnd dl Hv P L. unfold merge_left.
+  set (r := blk_of (base s) v). set (s1 := set_ctr s (S (ctr s))). set (s2 := set_btime s1 (upd_nth (btime s1) r (ctr s1))).
+  pose proof (p_SI _ _ _ _ P) as [BK _].
+  assert (Hr : (r < length (bin s2))%nat).
+  { change (bin s2) with (bin s). rewrite L. apply (bk_blk _ BK). rewrite (p_n _ _ _ _ P). exact Hv. }
+  assert (exists h3, bin_of (set_up_heap true s2 r) r = Some h3) as [h3 H3].
+  { unfold set_up_heap.
+    match goal with |- context [fold_left ?f ?l ?a] => assert (E : bin (fst (fold_left f l a)) = bin s2) end.
+    { apply (fold_left_inv _ (fun acc => bin (fst acc) = bin s2)); [|reflexivity].
+      intros acc w _ Hacc.
+      apply (fold_left_inv _ (fun acc => bin (fst acc) = bin s2)); [|exact Hacc].
+      intros [sa ha] c _ H'. cbn [fst] in *. unfold heap_add.
+      set (sb := set_ctime_of sa c (ctr sa)).
+      destruct (negb _); [|exact H'].
+      pose proof (proj1 (heaps_eq_s_insert sb ha c)) as X. rewrite X. exact H'. }
+    match goal with |- context [fold_left ?f ?l ?a] => destruct (fold_left f l a) as [s' h] end.
+    cbn [fst] in E. exists h. unfold bin_of, set_heap. cbn [bin set_bin]. apply nth_upd_nth_eq. rewrite E. exact Hr. }
+  destruct (find_min_in_total _ r h3 H3) as [s4 [c E4]]. rewrite E4. cbn [bind fst snd].
+  destruct (PI_to_MLI done v cs n topo vnd dl Hv s s4 c P E4) as [I RO].
+  assert (G0 : forall k, (k < length cs)%nat -> In (cr (Kc cs k)) done ->
+                 0 <= Yof (base s) (cr (Kc cs k)) - gap (Kc cs k) - Yof (base s) (cl (Kc cs k))).
+  { intros k Hk Dk. pose proof (p_sat _ _ _ _ P k Hk Dk) as X. rewrite (slack_Y' _ k (p_wf _ _ _ _ P)) in X.
+    assert (E : con_of (base s) k = Kc cs k) by (unfold con_of, Kc; rewrite (p_cs _ _ _ _ P); reflexivity).
+    rewrite E in X. exact X. }
+  apply (ml_loop_total done v _ cs n topo G0 dl (loop_fuel s) s4 r c I RO).
+  unfold loop_fuel. rewrite (p_n _ _ _ _ P). lia.
+Qed.
+
+Lemma visit_fold_total cs n : forall post pre s,
+  topo_order cs (pre ++ post) -> (forall u, In u (pre ++ post) -> (u < n)%nat) ->
+  PI cs n (rev pre) s -> LB s -> exists s', fold_left sat_visit post (Ok s) = Ok s'.
+Proof.
+  induction post as [|v post IH]; intros pre s TO R P L.
+  - eexists. reflexivity.
+  - cbn [fold_left]. unfold sat_visit at 2. cbn [bind].
+    assert (Hv : (v < n)%nat) by (apply R; rewrite in_app_iff; right; left; reflexivity).
+    rewrite (p_live _ _ _ _ P v Hv).
+    destruct TO as [ND [CV TP]].
+    assert (topo : forall c, (c < length cs)%nat -> proc (rev pre) v (cr (Kc cs c)) -> In (cl (Kc cs c)) (rev pre)).
+    { intros c Hc Pc. apply -> in_rev. apply (TP c pre v post Hc eq_refl).
+      destruct Pc as [X|X]; [left; apply in_rev; exact X | right; exact X]. }
+    assert (vnd : ~ In v (rev pre)).
+    { intros X. apply in_rev in X. apply NoDup_remove_2 in ND. apply ND. rewrite in_app_iff. left. exact X. }
+    assert (dl : forall u, In u (rev pre) -> (u < n)%nat).
+    { intros u Hu. apply R. rewrite in_app_iff. left. apply in_rev. exact Hu. }
+    destruct (merge_left_total cs n (rev pre) v s topo vnd dl Hv P L) as [s1 E]. rewrite E.
+    pose proof (merge_left_PI cs n (rev pre) v s s1 topo vnd dl Hv P E) as P1.
+    destruct (merge_left_lens _ _ _ E) as [A B].
+    assert (L1 : LB s1) by (unfold LB in *; congruence).
+    rewrite <- rev_unit in P1.
+    apply (IH (pre ++ [v]) s1); [| |exact P1|exact L1].
+    + rewrite <- app_assoc. cbn [app]. split; [exact ND|]. split; [exact CV | exact TP].
+    + rewrite <- app_assoc. exact R.
+Qed.
+
+Lemma static_init_LB vs cs : LB (static_init vs cs).
+Proof.
+  unfold LB. cbn [static_init bin base]. rewrite repeat_length.
+  assert (IF : init_facts vs cs (length vs) (init vs cs)).
+  { rewrite init_unfold. apply init_fold_facts; [lia|].
+    constructor; cbn; try reflexivity; try (apply repeat_length). intros i Hi. lia. }
+  symmetry. exact (if_blocks _ _ _ _ IF).
+Qed.
+
+(* ------------------------------------------------------------------ static_no_throw_on_dag *)
+Theorem static_no_throw_on_dag vs cs :
+  wf_vars vs -> wf_cons vs cs -> dag_orderb (init vs cs) = true ->
+  exists s', static_satisfy (static_init vs cs) = Ok s' /\
+             forall c, (c < length cs)%nat -> 0 <= slack_val (base s') c.
+Proof.
+  intros WV W D. apply (static_no_throw_on_dag_modulo_fuel vs cs WV W D).
+  destruct (dag_orderb_topo vs cs W D) as [order [TO TP]].
+  destruct (init_problem vs cs) as [Iv Ic].
+  assert (R : forall u, In u order -> (u < length vs)%nat).
+  { pose proof (total_order_range (init vs cs) order) as X. rewrite Iv, Ic in X. specialize (X W TO).
+    rewrite Forall_forall in X. exact X. }
+  destruct (visit_fold_total cs (length vs) order [] (static_init vs cs) TP R (static_init_PI vs cs WV W) (static_init_LB vs cs)) as [s1 E].
+  unfold static_satisfy, merge_pass. cbn [static_init base]. rewrite TO. cbn [bind].
+  change (mksst (init vs cs) (repeat O (length vs)) (repeat O (length cs)) (repeat None (length vs)) (repeat None (length vs)) O false)
+    with (static_init vs cs).
+  rewrite E. cbn [bind]. unfold sfinal_scan. destruct (find _ _); discriminate.
+Qed.
+
+(* non-vacuity: the example DAG of StaticExamples.v (4 variables, 4 constraints, merges needed) satisfies the hypotheses,
+   and so does a removeoverlaps-shaped chain with a tie *)
+Example static_no_throw_on_dag_example :
+  let vs := [mkvar 3 1 1; mkvar 0 2 1; mkvar 1 1 1; mkvar 0 1 1] in
+  let cs := [mkcon 0 1 2 false; mkcon 1 3 1 false; mkcon 0 2 1 false; mkcon 2 3 2 false] in
+  wf_vars vs /\ wf_cons vs cs /\ dag_orderb (init vs cs) = true /\
+  exists s', static_satisfy (static_init vs cs) = Ok s' /\ existsb (fun c => act_of (base s') c) (seq 0 4) = true.
+Proof.
+  cbv zeta. split; [|split; [|split]].
+  - intros i Hi. cbn [length] in Hi. destruct i as [|[|[|[|i]]]]; try lia; cbn; split; reflexivity.
+  - intros c [<-|[<-|[<-|[<-|[]]]]]; cbn; lia.
+  - vm_compute. reflexivity.
+  - eexists. split; vm_compute; reflexivity.
 Qed.
